@@ -31,7 +31,9 @@ import (
 
 type c09LegacyDriver struct{}
 
-func (d c09LegacyDriver) Begin(ctx context.Context) <-chan error { return d.BeginPush(ctx, c09reg.Name) }
+func (d c09LegacyDriver) Begin(ctx context.Context) <-chan error {
+	return d.BeginPush(ctx, c09reg.Name)
+}
 
 func (c09LegacyDriver) BeginPush(ctx context.Context, name string) <-chan error {
 	ch := make(chan error, 1)
